@@ -44,6 +44,7 @@ func VerifHarness_ProblemLines() {
 	e := verifMkEntry()
 	ctx := context.Background()
 	var problems []Problem
+	merged := false
 	ok := func(anchored string) {
 		verifAssume(verifPred2("expandOK", anchored, ""))
 		verifAssume(verifPred2("expandOK", anchored, verifRuleContent))
@@ -71,7 +72,8 @@ func VerifHarness_ProblemLines() {
 		// group's key node and takes the rule's value node (parser.MergeMaps); when the group's `labels:` follow the
 		// rules, `value not allowed` gets Lines{First: key line, Last: value line} with First > Last, and
 		// LineRange.Expand (JSON reporter) panics with "makeslice: cap out of range"
-		verifSig("C02-reject-merged-label-lines", verifMergedBelow(e))
+		// (the signature is registered after the check ran, below: a panic inside the check is never attributed to it)
+		merged = verifMergedBelow(e)
 		switch verifParam("check") {
 		case 3:
 			problems = NewRejectCheck(true, false, nil, re, Bug).Check(ctx, e, nil)
@@ -86,6 +88,7 @@ func VerifHarness_ProblemLines() {
 		problems = NewAggregationCheck(MustTemplatedRegexp(pat), verifAtomNS("alabel", 2, 2), verifParam("keep") == 1, "", Warning).Check(ctx, e, nil)
 	}
 	verifReach("end")
+	verifSig("C02-reject-merged-label-lines", merged)
 	verifAssertI(problems)
 }
 
